@@ -22,6 +22,7 @@ fn dispatch(op: &str, args: &[Sexp]) -> String {
     match op {
         "f.enc" => crate::props::c15::op_enc(args),
         "f.dec" => crate::props::c15::op_dec(args),
+        "f.decenc" => crate::props::c15::op_decenc(args),
         "gds.write" => crate::gdsio::op_write(args),
         "gds.read" | "gds.c03" => crate::gdsio::op_read(args),
         "gds.open" => crate::gdsio::op_open(args),
